@@ -13,7 +13,7 @@ LEVEL = "exploration"
 RULE = ("Molecules: every closed-shell corpus molecule and every closed-shell periodic-table species (enumerated), "
         "Hypothesis-edited molecules (ions, isotopes, hypervalent P/S/halogen, explicit H), each written with a drawn "
         "atom order, optional kekule / all-bonds-explicit / all-H-explicit form and drawn atom-map numbers (1-3 digits, "
-        "optionally zero-padded) on a drawn subset of atoms; mixtures and reaction strings of them; stereo centres and "
+        "optionally zero-padded) on a drawn subset of atoms; mixtures and reaction strings of them (1-4 molecules, one case in eight 8-40 molecules; mapped corpus reactions joined 6 and 25 at a time, i.e. strings with hundreds to thousands of map numbers); stereo centres and "
         "double-bond marks from the corpus. Oracle: remove_atom_mapping(s) parses, each dot component is the same "
         "molecule as the original with maps cleared (canonical isomeric SMILES), and no ':<digits>]' remains. Pipeline "
         "shard: mapped reactions through Balancer.rebalance, reaction/input_reaction must be map-free. Non-trivial = "
@@ -107,7 +107,10 @@ def spelled_molecule(draw):
 
 @st.composite
 def spelled_mixture(draw):
-    items = draw(st.lists(spelled_molecule(), min_size=1, max_size=4))
+    # mostly 1-4 molecules; one case in eight is a long string (up to 40 molecules, several hundred mapped atoms):
+    # nothing in the code imposes a size limit, so none is assumed
+    big = draw(st.integers(0, 7)) == 0
+    items = draw(st.lists(spelled_molecule(), min_size=8 if big else 1, max_size=40 if big else 4))
     if draw(st.booleans()) and len(items) >= 2:
         k = draw(st.integers(1, len(items) - 1))
         return {"original": ".".join(i[0] for i in items[:k]) + ">>" + ".".join(i[0] for i in items[k:]),
@@ -121,6 +124,11 @@ def check_string_case(case, spec=None):
     judge_string(res, case["original"], sp)
     f = features(sp)
     res.tag(*f)
+    nmaps = len(_MAPRE.findall(sp))
+    if nmaps > 256:
+        res.tag("mapped-atoms>256")
+    elif nmaps > 64:
+        res.tag("mapped-atoms>64")
     res.nontrivial = "mapped" in f and len(f) >= 2
     return res
 
@@ -203,11 +211,19 @@ def run_shard(spec, seed, tier, shard):
                 i += 1
         shard.exhaustive = True
     elif k == "corpus-rxn":
-        for i, r in enumerate(gen.load_reactions("input")):
-            if not oracle.reaction_closed_shell(r):
-                continue
+        rxs = [r for r in gen.load_reactions("input") if oracle.reaction_closed_shell(r)]
+        for i, r in enumerate(rxs):
             c = {"original": r, "spelled": r}
             shard.add(c, check_string_case(c, spec), i)
+        # long strings: the mapped corpus reactions joined 6 / 25 at a time (hundreds to thousands of map numbers)
+        for width in (6, 25):
+            for j in range(0, len(rxs) - width, width * 9):
+                chunk = rxs[j:j + width]
+                joined = ".".join(x.split(">>")[0] for x in chunk) + ">>" + ".".join(x.split(">>")[1] for x in chunk)
+                c = {"original": joined, "spelled": joined}
+                r_ = check_string_case(c, spec)
+                r_.tag("maps>256" if len(_MAPRE.findall(joined)) > 256 else "maps<=256")
+                shard.add(c, r_, 100000 + j)
         shard.exhaustive = True
 
 
